@@ -1,17 +1,31 @@
 (* Corr/C19.v — case type and predicates evaluated by the correspondence of C19.
 
-   One case = the documents of a run (name, bytes, yaml.v3's own description of every node) and every range the
-   implementation reported (where it came from, the environment it names, the yaml node it belongs to when the
-   harness could walk to it, and the six numbers).
+   One case = the documents of a run (name, bytes, yaml.v3's own description of every node, rivo/uniseg's own
+   segmentation of every non-ASCII line and its StringWidth of every prefix of every scalar that is not printable
+   ASCII) and every range the implementation reported (where it came from, the environment it names, the yaml node it
+   belongs to when the harness could walk to it, and the six numbers).  A run that panicked or killed the process is
+   the case [CCrash]: a specification failure of its own (no range can be trusted), never a pass.
      mismatch   the range differs from the model's range for that node (model fed with yaml.v3's line, column,
-                value, style, tag), or — for ranges the harness could not attach to a node (definition traces,
-                diagnostics, resolved-value ranges) — it is the model's range of no node of that document
+                value, style, tag and with uniseg's clusters), or — for ranges the harness could not attach to a node
+                (definition traces, diagnostics, resolved-value ranges) — it is the model's range of no node of that
+                document
      spec_fail  evaluated on the implementation's numbers and the text alone: a position that does not exist in the
                 text or whose byte offset disagrees with its line and column (two independent computations:
                 [true_byte] and [scan_pos]), begin after end, end outside the text, the text of a plain single-line
                 scalar's range is not the scalar, the text of an accessor's range is not that piece of the scalar
-     known      the decidable classes of the recorded findings; they are functions of the source facts
-                (Src/SrcPositions.v) and become empty when the corresponding repair is in the source. *)
+     known      DESIGN §6 rule (2): a failing range is a recorded finding only if (a) the model — the code as it is
+                today — predicts exactly the implementation's six numbers for it ([attach]), and (b) the CAUSE of the
+                failing requirement, read off the node the model attaches the range to, is one of the recorded ones:
+                  1  C19-bytes              the end comes from a scalar with a non-ASCII value (length in bytes)
+                  2  C19-past-eol           the end comes from a scalar that is not a plain single-line scalar standing
+                                            at its yaml position (block, folded, quoted, tagged, multi-line)
+                  4  C19-zero-width         a cluster that is not one code point of width 1 before the position on a
+                                            line with non-ASCII text (TAB, wide character, combining sequence)
+                  8  C19-anchored           the node carries an anchor
+                  16 C19-accessor-multiline a sub-range of a plain scalar that continues on following lines
+                  32 C19-accessor-tab       StringWidth of the scalar's prefix is not its number of code points
+                A plain single-line ASCII scalar found at its yaml position with regular text before it has NO excuse.
+                The classes 1, 4, 32 are functions of the source facts (Src/SrcPositions.v) and empty after the repair. *)
 From Verif Require Import Base.Bytes Base.Wire Model.Positions Src.SrcPositions.
 Local Open Scope Z_scope.
 
@@ -20,14 +34,43 @@ Definition params : pos_params :=
      pp_runes := pos_column_runes; pp_end_chars := end_len_chars; pp_tag_chars := end_tag_len_chars;
      pp_sr_runes := scalar_range_runes |}.
 
+(* wn_pw: uniseg.StringWidth (value[:k]) for k = 0 .. len(value); empty for printable-ASCII values *)
 Record wnode := { wn_line : Z; wn_col : Z; wn_kind : N; wn_style : N; wn_tag : string; wn_value : string;
-                  wn_last : Z; wn_anch : bool }.
-Record wdoc := { wd_name : string; wd_text : string; wd_nodes : list wnode }.
+                  wn_last : Z; wn_anch : bool; wn_pw : list Z }.
+(* wd_segs: for every non-ASCII line (0-based index) the clusters uniseg.Step yields: (byte length, width) *)
+Record wdoc := { wd_name : string; wd_text : string; wd_nodes : list wnode; wd_segs : list (Z * list (Z * Z)) }.
 (* what an accessor range is the range OF: the key or index the evaluator resolved *)
 Inductive accd := ANone | AKey (k : string) | AIdx (i : Z).
 Record wrange := { wr_what : string; wr_env : string; wr_node : Z; wr_b : hpos; wr_e : hpos; wr_acc : accd }.
 
 Inductive case := CCrash | CCase (docs : list wdoc) (ranges : list wrange).
+
+(* ---- the library's answers for this document ---- *)
+Fixpoint cut_cl (l : string) (cl : list (Z * Z)) : list (string * Z) :=
+  match cl with
+  | [] => []
+  | (n, w) :: r => (stake (Z.to_nat n) l, w) :: cut_cl (sdrop (Z.to_nat n) l) r
+  end.
+
+Fixpoint printable_ascii (s : string) : bool :=
+  match s with
+  | EmptyString => true
+  | String c r => let n := N_of_ascii c in (32 <=? n)%N && (n <? 127)%N && printable_ascii r
+  end.
+
+Definition doc_uniseg (d : wdoc) : uniseg :=
+  let ls := lines_of (wd_text d) in
+  let tab := map (fun '(i, cl) => let l := nth (Z.to_nat i) ls EmptyString in (l, cut_cl l cl)) (wd_segs d) in
+  let pws := filter (fun w => match wn_pw w with [] => false | _ :: _ => true end) (wd_nodes d) in
+  {| u_seg := fun l => match find (fun e => String.eqb (fst e) l) tab with
+                       | Some e => snd e
+                       | None => seg_simple [] l
+                       end;
+     u_width := fun s => if printable_ascii s then slenZ s
+                         else match find (fun w => sprefix s (wn_value w)) pws with
+                              | Some w => nth (String.length s) (wn_pw w) 0
+                              | None => sum_w (seg_simple [] s)
+                              end |}.
 
 (* ---- the yaml node (with the chain of last children, which is all yamlEndPos looks at) ---- *)
 Fixpoint build (fuel : nat) (nodes : list wnode) (i : Z) : option ynode :=
@@ -44,20 +87,37 @@ Fixpoint build (fuel : nat) (nodes : list wnode) (i : Z) : option ynode :=
       end
   end.
 
-Record pnode := { pn_w : wnode; pn_y : option ynode; pn_r : option (hpos * hpos) }.
-Record pdoc := { pd_name : string; pd_text : string; pd_nodes : list pnode }.
+(* the node at the end of the chain of last children: the one whose value yamlEndPos measures *)
+Fixpoint leaf_of (fuel : nat) (nodes : list wnode) (i : Z) : option wnode :=
+  match fuel with
+  | O => None
+  | S f =>
+      if i <? 0 then None else
+      match nth_error nodes (Z.to_nat i) with
+      | None => None
+      | Some w => if wn_last w <? 0 then Some w else leaf_of f nodes (wn_last w)
+      end
+  end.
+
+Record pnode := { pn_w : wnode; pn_y : option ynode; pn_r : option (hpos * hpos); pn_leaf : option wnode }.
+(* pd_tab: the lines of the text with their offsets (Model.Positions.text_table), computed once; the oracle functions
+   over it are proved equal to the specification functions over the text (C19_fast_oracle_is_the_specification) *)
+Record pdoc := { pd_name : string; pd_text : string; pd_len : Z; pd_tab : list (Z * string); pd_u : uniseg;
+                 pd_nodes : list pnode }.
 
 Fixpoint seqZ (n : nat) (from : Z) : list Z :=
   match n with O => [] | S k => from :: seqZ k (from + 1) end.
 
 Definition prep (d : wdoc) : pdoc :=
   let idx := new_position_index (wd_text d) in
+  let u := doc_uniseg d in
   let n := length (wd_nodes d) in
-  {| pd_name := wd_name d; pd_text := wd_text d;
+  {| pd_name := wd_name d; pd_text := wd_text d; pd_len := slenZ (wd_text d); pd_tab := text_table (wd_text d); pd_u := u;
      pd_nodes := map (fun '(i, w) =>
                         let y := build (S n) (wd_nodes d) i in
                         {| pn_w := w; pn_y := y;
-                           pn_r := match y with Some y => node_range params idx y | None => None end |})
+                           pn_r := match y with Some y => node_range params u idx y | None => None end;
+                           pn_leaf := leaf_of (S n) (wd_nodes d) i |})
                      (combine (seqZ n 0) (wd_nodes d)) |}.
 
 Fixpoint find_doc (name : string) (ds : list pdoc) : option pdoc :=
@@ -79,55 +139,50 @@ Definition what_node (w : string) : bool := String.eqb w "expr" || String.eqb w 
 Definition what_sub (w : string) : bool := String.eqb w "acc" || String.eqb w "diag".
 
 (* is [impl] the ScalarRange sub-range the model computes inside node [y] with range [rg]? *)
-Definition sub_match (y : ynode) (rg : hpos * hpos) (impl : hpos * hpos) : bool :=
+Definition sub_match (u : uniseg) (y : ynode) (rg : hpos * hpos) (impl : hpos * hpos) : bool :=
   let st := p_byte (fst impl) - p_byte (fst rg) in
   let en := p_byte (snd impl) - p_byte (fst rg) in
   (0 <=? st) && (st <=? en) && (en <=? slenZ (yn_value y))
-  && match scalar_range params y rg (Z.to_nat st) (Z.to_nat en) with
+  && match scalar_range params u y rg (Z.to_nat st) (Z.to_nat en) with
      | Some m => range_eqb m impl
      | None => false
      end.
 
-Definition member (d : pdoc) (sub : bool) (impl : hpos * hpos) : bool :=
-  existsb (fun pn => match pn_r pn, pn_y pn with
-                     | Some rg, Some y => range_eqb rg impl || (sub && sub_match y rg impl)
-                     | _, _ => false
-                     end) (pd_nodes d).
-
-Definition mismatch_range (ds : list pdoc) (r : wrange) : bool :=
-  match find_doc (wr_env r) ds with
-  | None => negb (is_zero r)
-  | Some d =>
-      let impl := impl_range r in
-      if wr_node r <? 0 then negb (is_zero r || member d (what_sub (wr_what r)) impl)
-      else match nth_error (pd_nodes d) (Z.to_nat (wr_node r)) with
-           | Some {| pn_y := Some y; pn_r := Some rg |} =>
-               if what_node (wr_what r) then negb (range_eqb rg impl)
-               else if String.eqb (wr_what r) "acc" then
-                 if is_zero r
-                 then match scalar_range params y rg 0 0 with None => false | Some _ => true end
-                 else negb (sub_match y rg impl)
-               else true
-           | _ => true
-           end
+(* does the model reproduce [impl] as the range of node [pn] (false) or as a sub-range of it (true)? *)
+Definition reproduces (u : uniseg) (pn : pnode) (whole sub : bool) (impl : hpos * hpos) : option bool :=
+  match pn_r pn, pn_y pn with
+  | Some rg, Some y => if whole && range_eqb rg impl then Some false
+                       else if sub && sub_match u y rg impl then Some true
+                       else None
+  | _, _ => None
   end.
+
+(* the nodes the model attaches a (non-zero) range to: the node the harness walked to, if the model gives that node
+   exactly this range; for ranges the harness could not walk to, every node of the document with exactly this range.
+   Empty = the model does not reproduce the implementation's numbers. *)
+Definition attach (d : pdoc) (r : wrange) : list (pnode * bool) :=
+  let impl := impl_range r in
+  let u := pd_u d in
+  if wr_node r <? 0 then
+    flat_map (fun pn => match reproduces u pn true (what_sub (wr_what r)) impl with
+                        | Some s => [(pn, s)]
+                        | None => []
+                        end) (pd_nodes d)
+  else match nth_error (pd_nodes d) (Z.to_nat (wr_node r)) with
+       | Some pn =>
+           match reproduces u pn (what_node (wr_what r)) (String.eqb (wr_what r) "acc") impl with
+           | Some s => [(pn, s)]
+           | None => []
+           end
+       | None => []
+       end.
 
 (* ---- the specification, on the implementation's numbers ---- *)
 Definition optZ_is (o : option Z) (b : Z) : bool := match o with Some x => x =? b | None => false end.
 
-Definition pos_ok (text : string) (h : hpos) : bool :=
-  optZ_is (true_byte text (p_line h) (p_col h)) (p_byte h)
-  && optZ_is (scan_pos text 0 1 1 0 (p_line h) (p_col h)) (p_byte h).
-
-Definition nlines (text : string) : Z := Z.of_nat (length (lines_of text)).
-
-(* known classes of a single position *)
-Definition kc_past_eol (text : string) (h : hpos) : bool := past_eol text (p_line h) (p_col h).
-Definition kc_zero_width (text : string) (h : hpos) : bool := zero_width_before params text (p_line h) (p_col h).
-(* (the last line of a document without final newline is NOT a known class: that defect is repaired in the source,
-   line_table_fixed is a proof obligation) *)
-Definition pos_known (text : string) (h : hpos) : bool :=
-  kc_past_eol text h || kc_zero_width text h.
+Definition pos_ok (d : pdoc) (h : hpos) : bool :=
+  optZ_is (true_byte_tab (pd_tab d) (p_line h) (p_col h)) (p_byte h)
+  && optZ_is (scan_pos (pd_text d) 0 1 1 0 (p_line h) (p_col h)) (p_byte h).
 
 (* ---- the text under the range of an accessor spells that accessor: the bare name, the name after a dot, the
         name in brackets (bare, or quoted with backslash-escaped quotes), a decimal index in brackets; an
@@ -184,150 +239,234 @@ Definition spelled (sl : string) (a : accd) : bool :=
       end
   end.
 
-(* (failure of the slice requirement, is it inside a known class) *)
-Definition slice_check (text : string) (what : string) (pn : option pnode) (r : wrange) : bool * bool :=
+
+(* ---- the slice requirement, evaluated on yaml.v3's node, the text and the implementation's bytes only ---- *)
+(* (fails, causes visible on the node) *)
+Definition slice_check (d : pdoc) (what : string) (pn : option pnode) (r : wrange) : bool * N :=
+  let text := pd_text d in
   match pn with
   | Some {| pn_w := w |} =>
       let v := wn_value w in
-      let loc := located text (wn_line w) (wn_col w) v in
+      let loc := located_tab text (pd_tab d) (wn_line w) (wn_col w) v in
       let sl := substr (p_byte (wr_b r)) (p_byte (wr_e r)) text in
-      if negb ((wn_kind w =? 8)%N && (wn_style w =? 0)%N) then (false, false)
+      if negb ((wn_kind w =? 8)%N && (wn_style w =? 0)%N) then (false, 0%N)
       else if what_node what then
         ((loc || wn_anch w) && negb (String.eqb sl v),
-         wn_anch w || (negb (pp_end_chars params) && negb (is_ascii_str v)))
+         ((if wn_anch w then 8 else 0) + (if negb (pp_end_chars params) && negb (is_ascii_str v) then 1 else 0))%N)
       else if String.eqb what "acc" then
-        match true_byte text (wn_line w) (wn_col w) with
+        match true_byte_tab (pd_tab d) (wn_line w) (wn_col w) with
         | Some nb =>
             let st := p_byte (wr_b r) - nb in
             let en := p_byte (wr_e r) - nb in
             (negb ((0 <=? st) && (st <=? en) && (en <=? slenZ v)) || negb (String.eqb sl (substr st en v))
              || negb (spelled sl (wr_acc r)),
-             wn_anch w || negb loc)
-        | None => (true, false)
+             (if wn_anch w then 8 else if negb loc then 16 else 0)%N)
+        | None => (true, 0%N)
         end
-      else (false, false)
-  | None => (false, false)
+      else (false, 0%N)
+  | None => (false, 0%N)
   end.
 
-(* zero-width characters inside the scalar before an accessor: ScalarRange's column advance (uniseg.StringWidth) *)
-Definition kc_sr_width (pn : option pnode) (text : string) (r : wrange) : bool :=
-  match pn with
-  | Some {| pn_w := w |} =>
-      match true_byte text (wn_line w) (wn_col w) with
-      | Some nb => negb (pp_sr_runes params)
-                   && negb (forallb w1 (chars_of (stake (Z.to_nat (p_byte (wr_e r) - nb)) (wn_value w))))
-      | None => false
-      end
-  | None => false
-  end.
-
-(* a plain scalar of the document whose text contains the range (diagnostics about an accessor carry the accessor's
-   range but no path the harness could walk) *)
+(* a plain scalar of the document whose text contains the range (accessor ranges the harness could not walk to) *)
 Definition enclosing_scalar (d : pdoc) (r : wrange) : option pnode :=
   find (fun pn =>
           let w := pn_w pn in
           (wn_kind w =? 8)%N && (wn_style w =? 0)%N && (wn_line w =? p_line (wr_b r))
-          && match true_byte (pd_text d) (wn_line w) (wn_col w) with
+          && match true_byte_tab (pd_tab d) (wn_line w) (wn_col w) with
              | Some nb => (nb <=? p_byte (wr_b r)) && (p_byte (wr_e r) <=? nb + slenZ (wn_value w))
              | None => false
              end) (pd_nodes d).
 
-(* (fails, inside known classes) for one range *)
-Definition spec_range (ds : list pdoc) (r : wrange) : bool * bool :=
-  if is_zero r then (false, false) else
+(* ---- causes (see the header) read off the node the model attaches the range to ---- *)
+Definition c_irregular (d : pdoc) (h : hpos) : N :=
+  if irregular_before_tab params (pd_u d) (pd_tab d) (p_line h) (p_col h) then 4 else 0.
+
+Definition c_leaf (d : pdoc) (lf : option wnode) : N :=
+  match lf with
+  | Some w =>
+      if is_collection (wn_kind w) then 0
+      else ((if negb (pp_end_chars params) && negb (is_ascii_str (wn_value w)) then 1 else 0)
+            + (if wn_anch w then 8
+               else if negb (wn_style w =? 0)
+                       || negb (located_tab (pd_text d) (pd_tab d) (wn_line w) (wn_col w) (wn_value w)) then 2
+               else 0))%N
+  | None => 0%N
+  end.
+
+Definition c_sub (d : pdoc) (pn : pnode) (k : Z) : N :=
+  let w := pn_w pn in
+  ((match pn_r pn with Some rg => c_irregular d (fst rg) | None => 0 end)
+   + (if wn_anch w then 8
+      else if negb (located_tab (pd_text d) (pd_tab d) (wn_line w) (wn_col w) (wn_value w)) then 16 else 0)
+   + (if sr_irregular params (pd_u d) (wn_value w) (Z.to_nat k) then 32 else 0))%N.
+
+Definition lorN (l : list N) : N := fold_right N.lor 0%N l.
+
+(* (causes for a failing begin, causes for a failing end) *)
+Definition causes (d : pdoc) (r : wrange) (a : list (pnode * bool)) : N * N :=
+  let one (x : pnode * bool) : N * N :=
+    let (pn, sub) := x in
+    if sub then
+      match pn_r pn with
+      | Some rg => (c_sub d pn (p_byte (wr_b r) - p_byte (fst rg)), c_sub d pn (p_byte (wr_e r) - p_byte (fst rg)))
+      | None => (0%N, 0%N)
+      end
+    else (c_irregular d (wr_b r), N.lor (c_irregular d (wr_e r)) (c_leaf d (pn_leaf pn))) in
+  (lorN (map (fun x => fst (one x)) a), lorN (map (fun x => snd (one x)) a)).
+
+Record sres := { s_fail : bool; s_known : bool; s_cls : N; s_att : bool; s_mis : bool }.
+
+Definition nz (n : N) : bool := negb (n =? 0)%N.
+
+(* the verdict on one range: specification (on the implementation's numbers), known class, model agreement *)
+Definition spec_range (ds : list pdoc) (r : wrange) : sres :=
   match find_doc (wr_env r) ds with
-  | None => (true, false)                    (* names an environment that is not there *)
+  | None =>      (* names an environment that is not there *)
+      {| s_fail := negb (is_zero r); s_known := false; s_cls := 0; s_att := false; s_mis := negb (is_zero r) |}
   | Some d =>
+      if is_zero r then
+        (* no position reported: fine for ranges without a node; for an accessor of a node the model must return
+           nil as well; a node itself always has a position *)
+        {| s_fail := false; s_known := false; s_cls := 0; s_att := true;
+           s_mis := if wr_node r <? 0 then false
+                    else match nth_error (pd_nodes d) (Z.to_nat (wr_node r)) with
+                         | Some {| pn_y := Some y; pn_r := Some rg |} =>
+                             if String.eqb (wr_what r) "acc"
+                             then match scalar_range params (pd_u d) y rg 0 0 with None => false | Some _ => true end
+                             else true
+                         | _ => true
+                         end |}
+      else
       let text := pd_text d in
-      let pn := if wr_node r <? 0 then None else nth_error (pd_nodes d) (Z.to_nat (wr_node r)) in
+      let a := attach d r in
+      let att := match a with [] => false | _ :: _ => true end in
       let isacc := String.eqb (wr_what r) "acc" in
-      let srk := (isacc && kc_sr_width pn text r)
-                 || ((isacc || String.eqb (wr_what r) "diag") && (wr_node r <? 0)
-                     && kc_sr_width (enclosing_scalar d r) text r) in
-      let fb := negb (pos_ok text (wr_b r)) in
-      let fe := negb (pos_ok text (wr_e r)) in
-      (* a plain single-line scalar found at its yaml position can only be reported past the end of its line
-         through the byte-length end column of a non-ASCII value *)
-      let strict := match pn with
-                    | Some {| pn_w := w |} =>
-                        what_node (wr_what r) && (wn_kind w =? 8)%N && (wn_style w =? 0)%N && negb (wn_anch w)
-                        && located text (wn_line w) (wn_col w) (wn_value w)
-                    | None => false
-                    end in
-      let bytes_end := match pn with
-                       | Some {| pn_w := w |} => negb (pp_end_chars params) && negb (is_ascii_str (wn_value w))
-                       | None => false
-                       end in
-      let kb := if strict then kc_zero_width text (wr_b r) else pos_known text (wr_b r) || srk in
-      let ke := if strict then kc_zero_width text (wr_e r) || (kc_past_eol text (wr_e r) && bytes_end)
-                else pos_known text (wr_e r) || srk in
-      let forder := (p_byte (wr_e r) <? p_byte (wr_b r)) || (slenZ text <? p_byte (wr_e r)) || (p_byte (wr_b r) <? 0) in
-      let excused := (fb && kb) || (fe && ke) in
-      (* an accessor range the harness could not attach to a node (bases): the plain scalar that contains it;
-         if there is none, only the spelling is required, excused when the document has a multi-line or
-         anchored plain scalar it may belong to *)
-      let pn_acc := match pn with
-                    | Some _ => pn
-                    | None => if isacc then enclosing_scalar d r else None
-                    end in
-      let (fs, ks) :=
-        match pn_acc with
-        | Some _ => slice_check text (wr_what r) pn_acc r
-        | None =>
-            if isacc
-            then (negb (spelled (substr (p_byte (wr_b r)) (p_byte (wr_e r)) text) (wr_acc r)),
-                  existsb (fun q => let w := pn_w q in
-                                    (wn_kind w =? 8)%N && (wn_style w =? 0)%N
-                                    && (wn_anch w || negb (located text (wn_line w) (wn_col w) (wn_value w))))
-                          (pd_nodes d))
-            else slice_check text (wr_what r) pn r
+      let fb := negb (pos_ok d (wr_b r)) in
+      let fe := negb (pos_ok d (wr_e r)) in
+      let forder := (p_byte (wr_e r) <? p_byte (wr_b r)) || (pd_len d <? p_byte (wr_e r)) || (p_byte (wr_b r) <? 0) in
+      (* the node whose text the range must delimit: the one the harness walked to; for an accessor it could not
+         walk to, the plain scalar of the document that contains the range (if none: only the spelling is required) *)
+      let pn := if wr_node r <? 0 then (if isacc then enclosing_scalar d r else None)
+                else nth_error (pd_nodes d) (Z.to_nat (wr_node r)) in
+      let (fs, cs0) :=
+        match pn with
+        | Some _ => slice_check d (wr_what r) pn r
+        | None => if isacc
+                  then (negb (spelled (substr (p_byte (wr_b r)) (p_byte (wr_e r)) text) (wr_acc r)), 0%N)
+                  else (false, 0%N)
         end in
-      (fb || fe || forder || fs,
-       (negb fb || kb) && (negb fe || ke) && (negb forder || excused) && (negb fs || ks || excused))
+      if negb (fb || fe || forder || fs)
+      then {| s_fail := false; s_known := false; s_cls := 0; s_att := att; s_mis := negb att |}
+      else
+        (* something fails: is it a recorded finding?  only if the model reproduces the numbers, and by cause *)
+        let (cb, ce) := causes d r a in
+        let xb := fb && nz cb in
+        let xe := fe && nz ce in
+        let excused := xb || xe in
+        let cs1 := match pn with
+                   | Some _ => cs0
+                   | None => if isacc then lorN (map (fun x => N.land (c_sub d (fst x) 0) 24) a) else 0%N
+                   end in
+        (* the text under the range is wrong although both positions may be consistent: every cause that moves a
+           position moves the slice (two shifts can cancel in the position check, e.g. a wide character before the
+           scalar and a TAB inside it) *)
+        let cs := if att then N.lor cs1 (N.lor cb ce) else 0%N in
+        let xs := fs && nz cs in
+        {| s_fail := true;
+           s_known := att && (negb fb || xb) && (negb fe || xe) && (negb forder || excused) && (negb fs || xs);
+           s_cls := N.lor (N.lor (if xb then cb else 0) (if xe then ce else 0)) (if fs then cs else 0)%N;
+           s_att := att; s_mis := negb att |}
   end.
 
-Definition mismatch (c : case) : bool :=
+Definition mismatch_range (ds : list pdoc) (r : wrange) : bool := s_mis (spec_range ds r).
+
+Definition results (c : case) : list (wrange * sres) :=
   match c with
-  | CCrash => false
-  | CCase docs ranges => let ds := map prep docs in existsb (mismatch_range ds) ranges
+  | CCrash => []
+  | CCase docs ranges => let ds := map prep docs in map (fun r => (r, spec_range ds r)) ranges
   end.
 
-Definition spec_fail_new (c : case) : bool :=
-  match c with
-  | CCrash => false
-  | CCase docs ranges =>
-      let ds := map prep docs in
-      existsb (fun r => let (f, k) := spec_range ds r in f && negb k) ranges
-  end.
+Definition is_crash (c : case) : bool := match c with CCrash => true | CCase _ _ => false end.
 
-Definition spec_fail_known (c : case) : bool :=
-  match c with
-  | CCrash => false
-  | CCase docs ranges =>
-      let ds := map prep docs in
-      existsb (fun r => let (f, k) := spec_range ds r in f && k) ranges
-  end.
+Definition mismatch_of (vs : list (wrange * sres)) : bool := existsb (fun x => s_mis (snd x)) vs.
+(* a crash or panic of the evaluation is a failure of the specification (outside every known class) *)
+Definition fail_new_of (vs : list (wrange * sres)) : bool := existsb (fun x => s_fail (snd x) && negb (s_known (snd x))) vs.
+Definition fail_known_of (vs : list (wrange * sres)) : bool := existsb (fun x => s_fail (snd x) && s_known (snd x)) vs.
 
+Definition mismatch (c : case) : bool := mismatch_of (results c).
+Definition spec_fail_new (c : case) : bool := is_crash c || fail_new_of (results c).
+Definition spec_fail_known (c : case) : bool := fail_known_of (results c).
 Definition spec_fail (c : case) : bool := spec_fail_new c || spec_fail_known c.
 
 Definition nontrivial (c : case) : bool :=
   match c with
-  | CCrash => false
+  | CCrash => true
   | CCase _ ranges => existsb (fun r => negb (is_zero r)) ranges
+  end.
+
+(* ---- counts for the evidence (every escape hatch is counted): fields of 6 decimal digits, lowest first:
+   0 non-zero ranges, 1 zero ranges (no position: not checked), 2 non-zero ranges without a node (compared by
+   membership), 3 failing ranges, 4 failing ranges the model does not reproduce, 5 failing ranges outside the known
+   classes, 6.. failing ranges with an excused requirement whose cause is 1, 2, 4, 8, 16, 32, 12 positions whose column
+   uniseg counts irregularly (begin or end of a non-zero range), 13 accessor ranges checked for their spelling only ---- *)
+Definition cnt {A} (f : A -> bool) (l : list A) : N := N.of_nat (length (filter f l)).
+
+Definition stats (c : case) : N :=
+  match c with
+  | CCrash => 0%N
+  | CCase docs ranges =>
+      let ds := map prep docs in
+      let vs := map (fun r => (r, spec_range ds r)) ranges in
+      let nzr := filter (fun x => negb (is_zero (fst x))) vs in
+      let failing := filter (fun x => s_fail (snd x)) nzr in
+      let f (k : N) (n : N) : N := (N.min n 999999 * 10 ^ (6 * k))%N in
+      let bit (b : N) := cnt (fun x => s_known (snd x) && N.testbit (s_cls (snd x)) b) failing in
+      (f 0 (N.of_nat (length nzr))
+       + f 1 (cnt (fun x => is_zero (fst x)) vs)
+       + f 2 (cnt (fun x => (wr_node (fst x) <? 0)%Z) nzr)
+       + f 3 (N.of_nat (length failing))
+       + f 4 (cnt (fun x => negb (s_att (snd x))) failing)
+       + f 5 (cnt (fun x => negb (s_known (snd x))) failing)
+       + f 6 (bit 0) + f 7 (bit 1) + f 8 (bit 2) + f 9 (bit 3) + f 10 (bit 4) + f 11 (bit 5)
+       + f 12 (cnt (fun x => match find_doc (wr_env (fst x)) ds with
+                             | Some d => nz (c_irregular d (wr_b (fst x))) || nz (c_irregular d (wr_e (fst x)))
+                             | None => false
+                             end) nzr)
+       + f 13 (cnt (fun x => String.eqb (wr_what (fst x)) "acc" && (wr_node (fst x) <? 0)%Z
+                             && match find_doc (wr_env (fst x)) ds with
+                                | Some d => match enclosing_scalar d (fst x) with Some _ => false | None => true end
+                                | None => false
+                                end) nzr))%N
   end.
 
 (* ---- wire format ---- *)
 
+Fixpoint pairs_of (l : list Z) : list (Z * Z) :=
+  match l with
+  | a :: b :: r => (a, b) :: pairs_of r
+  | _ => []
+  end.
+
+Definition dec_seg (x : sexp) : option (Z * list (Z * Z)) :=
+  match x with
+  | SList (Atom "s" :: i :: cl) =>
+      match atom_Z i, map_opt atom_Z cl with
+      | Some i, Some cl => Some (i, pairs_of cl)
+      | _, _ => None
+      end
+  | _ => None
+  end.
+
 Definition dec_node (x : sexp) : option wnode :=
   match x with
-  | SList [Atom "n"; l; c; k; s; t; v; la; a] =>
+  | SList [Atom "n"; l; c; k; s; t; v; la; a; pw] =>
       match atom_Z l, atom_Z c, atom_N k, atom_N s with
       | Some l, Some c, Some k, Some s =>
-          match atom_str t, atom_str v, atom_Z la, atom_bool a with
-          | Some t, Some v, Some la, Some a =>
+          match atom_str t, atom_str v, atom_Z la, atom_bool a, slist_of atom_Z pw with
+          | Some t, Some v, Some la, Some a, Some pw =>
               Some {| wn_line := l; wn_col := c; wn_kind := k; wn_style := s; wn_tag := t; wn_value := v;
-                      wn_last := la; wn_anch := a |}
-          | _, _, _, _ => None
+                      wn_last := la; wn_anch := a; wn_pw := pw |}
+          | _, _, _, _, _ => None
           end
       | _, _, _, _ => None
       end
@@ -336,10 +475,11 @@ Definition dec_node (x : sexp) : option wnode :=
 
 Definition dec_doc (x : sexp) : option wdoc :=
   match x with
-  | SList [Atom "d"; name; text; nodes] =>
-      match atom_str name, atom_str text, slist_of dec_node nodes with
-      | Some name, Some text, Some nodes => Some {| wd_name := name; wd_text := text; wd_nodes := nodes |}
-      | _, _, _ => None
+  | SList [Atom "d"; name; text; nodes; segs] =>
+      match atom_str name, atom_str text, slist_of dec_node nodes, slist_of dec_seg segs with
+      | Some name, Some text, Some nodes, Some segs =>
+          Some {| wd_name := name; wd_text := text; wd_nodes := nodes; wd_segs := segs |}
+      | _, _, _, _ => None
       end
   | _ => None
   end.
@@ -376,9 +516,10 @@ Definition dec_range (x : sexp) : option wrange :=
   | _ => None
   end.
 
+
 Definition decode (x : sexp) : option case :=
   match x with
-  | SList [Atom "crash"] => Some CCrash
+  | SList (Atom "crash" :: _) => Some CCrash
   | SList [Atom "c19"; docs; ranges] =>
       match slist_of dec_doc docs, slist_of dec_range ranges with
       | Some ds, Some rs => Some (CCase ds rs)
@@ -388,6 +529,26 @@ Definition decode (x : sexp) : option case :=
   end.
 
 Definition verdict (c : case) : N :=
-  verdict_bits (mismatch c) (spec_fail_new c) (spec_fail_known c) (nontrivial c).
+  let vs := results c in
+  verdict_bits (mismatch_of vs) (is_crash c || fail_new_of vs) (fail_known_of vs) (nontrivial c).
 
-Definition run_line : string -> string := run_with decode verdict.
+(* decimal rendering of the counts *)
+Fixpoint show_N_aux (fuel : nat) (n : N) (acc : string) : string :=
+  match fuel with
+  | O => acc
+  | S f => let acc' := String (N_to_dec_digit (n mod 10)) acc in
+           if (n <? 10)%N then acc' else show_N_aux f (n / 10) acc'
+  end.
+Definition show_N (n : N) : string := show_N_aux 200 n EmptyString.
+
+(* `(c19 docs ranges)` / `(crash)` -> verdict bits;  `(c19s docs ranges)` -> the counts *)
+Definition run_line (line : string) : string :=
+  match parse_sexp line with
+  | Some (SList [Atom "c19s"; docs; ranges]) =>
+      match decode (SList [Atom "c19"; docs; ranges]) with
+      | Some c => show_N (stats c)
+      | None => "16"
+      end
+  | Some x => match decode x with Some c => show_verdict (verdict c) | None => "16" end
+  | None => "16"
+  end.
